@@ -120,7 +120,8 @@ def check(case, ctx):
             (is_gen_obj(value[0]) or isinstance(value[0], (list, dict))):
         value.append(value[0])
         ctx.count('shared_subobject')
-    if proj.share_index_item(value, m):
+    item_shared = proj.share_index_item(value, m)
+    if item_shared:
         ctx.count('index_item_shared_with_attribute')
     if case.get('intern', True):
         value, n_interned = proj.intern_leaves(value, m)
@@ -189,7 +190,7 @@ def check(case, ctx):
                     % (got, want, text, desc()))
         return
     if case.get('json'):
-        check_json_flavour(case, ctx, m, value, desc)
+        check_json_flavour(case, ctx, m, value, desc, item_shared)
 
 
 def simple_for_json(p):
@@ -205,7 +206,7 @@ def simple_for_json(p):
     return True
 
 
-def check_json_flavour(case, ctx, m, value, desc):
+def check_json_flavour(case, ctx, m, value, desc, item_shared):
     """The JSON dump functions are dump functions too: their text is (also) one
     well-formed, tag-free YAML document equal to the projection with dates as
     strings - whatever was dumped before, successfully or not."""
@@ -213,7 +214,7 @@ def check_json_flavour(case, ctx, m, value, desc):
         want = proj.Projector(m, json=True).project(value)
     except proj.Ambiguous:
         return
-    if not simple_for_json(want) or case.get('share'):
+    if not simple_for_json(want) or case.get('share') or item_shared:
         ctx.count('json_flavour_skipped')
         return
     dumps = m.dumps_json
